@@ -75,21 +75,44 @@ Definition spec_ok (c : case) : bool :=
 """
 
 
-def par_mismatches(ctx, name, header, cases, fns, shard=500, workers=6):
-    """coq_mismatches (lib.py) with the shards evaluated concurrently."""
+def par_mismatches(ctx, name, header, cases, fns, shard=500, workers=6, timeout=900):
+    """coq_mismatches (lib.py) with the shards evaluated concurrently through `coqtop -batch`
+    (no .vo is written: dumping the large `cases` term costs more than evaluating it)."""
     import concurrent.futures as cf
-    chunks = [(i, cases[i:i + shard]) for i in range(0, len(cases), shard)]
+    import os
+    import re
+    from .lib import HarnessError
+    d = os.path.join(ctx.build, "tmp")
+    bad = [[] for _ in fns]
 
-    def one(arg):
-        off, chunk = arg
-        bad = coq_mismatches(ctx, "%s_%d" % (name, off), header, chunk, fns, shard=len(chunk) + 1)
-        return [[off + i for i in b] for b in bad]
-    out = [[] for _ in fns]
+    def one(off):
+        chunk = cases[off:off + shard]
+        text = header + "\nDefinition cases := [\n" + ";\n".join(chunk) + "].\n"
+        text += ("Fixpoint idx_false {A} (f : A -> bool) (i : nat) (l : list A) : list nat :=\n"
+                 "  match l with [] => [] | x :: r => if f x then idx_false f (S i) r else i :: idx_false f (S i) r end.\n")
+        for k, fn in enumerate(fns):
+            text += "Definition M%d := Eval vm_compute in idx_false (%s) 0 cases.\nPrint M%d.\n" % (k, fn, k)
+        f = os.path.join(d, "%s_%d_%d.v" % (name, os.getpid(), off))
+        open(f, "w").write(text)
+        p = ctx.sh(["coqtop", "-q", "-batch", "-w", "-notation-overridden", "-Q", ctx.coqdir, "SV", "-l", f], cwd=d, timeout=timeout)
+        try:
+            os.remove(f)
+        except OSError:
+            pass
+        return off, p.stdout + p.stderr, p.returncode
+
     with cf.ThreadPoolExecutor(max_workers=workers) as ex:
-        for res in ex.map(one, chunks):
-            for k, b in enumerate(res):
-                out[k].extend(b)
-    return out
+        for off, out, rc in ex.map(one, range(0, len(cases), shard)):
+            if rc != 0:
+                raise HarnessError("coq evaluation of cases failed:\n" + out[-3000:])
+            for k in range(len(fns)):
+                m = re.search(r"M%d\s*=\s*(.*?)\s*:\s*list nat" % k, out, re.S)
+                if not m:
+                    raise HarnessError("cannot parse coq output:\n" + out[-2000:])
+                body = m.group(1).strip()
+                if body != "[]":
+                    bad[k].extend(off + int(t) for t in re.findall(r"\d+", body))
+    return bad
 
 
 _groups = {}
@@ -218,26 +241,72 @@ def sh_term(sh):
     return "[" + "; ".join("(%d, (%s, %s, (%d)%%Z))" % (b, cbool(n), nl(ds), dp) for b, (n, ds, dp) in sorted(sh.items())) + "]"
 
 
-LEAF1 = "(HLeaf (VInt 1%Z))"
-# the cyclic heaps built by `c15 child cycle <name>` (harness/cmd/c15/main.go), as Coq terms
-CYCLES = {
-    "list-self": ("[OList [%s; HRef 0; HLeaf (VStr [120])]]" % LEAF1, "(HRef 0)"),
-    "dict-self": ("[ODict [(HLeaf (VStr [107]), HRef 0); (%s, HLeaf VNone)]]" % LEAF1, "(HRef 0)"),
-    "list-dict-list": ("[OList [HRef 1; HRef 1]; ODict [(HLeaf (VStr [108]), HRef 0)]]", "(HRef 0)"),
-    "list-tuple-list": ("[OList [HTuple [HRef 0; HTuple [HRef 0]]]]", "(HTuple [HRef 0])"),
-    "dict-key-tuple": ("[OList [HRef 1]; ODict [(HTuple [%s; HLeaf (VStr [97])], HRef 0)]]" % LEAF1, "(HRef 1)"),
-    "deep-shared": ("[OList [%s]; OList [HRef 0; HRef 0]; OList [HRef 1; HRef 1]; OList [HRef 2; HRef 2]; OList [HRef 3; HRef 3]; OList [HRef 4; HRef 4]; OList [HRef 5; HRef 5]]" % LEAF1, "(HRef 6)"),
-}
+def graph_heap(spec):
+    """The Coq heap of a value-graph spec (harness/cmd/c15 gspec): lists and dicts are
+    heap objects (location = rank among the L/D nodes), tuples are inline."""
+    nodes = spec["nodes"]
+    loc = {}
+    for i, nd in enumerate(nodes):
+        if nd["k"] in "LD":
+            loc[i] = len(loc)
+
+    def hval(c):
+        if c < 0:
+            return "(HLeaf (VInt %d%%Z))" % -c
+        nd = nodes[c]
+        if nd["k"] == "T":
+            return "(HTuple [%s])" % "; ".join(hval(x) for x in (nd["c"] or []))
+        return "(HRef %d)" % loc[c]
+    objs = []
+    for i, nd in enumerate(nodes):
+        cs = nd["c"] or []
+        if nd["k"] == "L":
+            objs.append("OList [%s]" % "; ".join(hval(x) for x in cs))
+        elif nd["k"] == "D":
+            objs.append("ODict [%s]" % "; ".join("(HLeaf (VStr %s), %s)" % (nl(list(("k%d" % j).encode())), hval(x)) for j, x in enumerate(cs)))
+    return "[" + "; ".join(objs) + "]", hval
+
+
+def stage_class(st):
+    import re
+    return re.sub(r"-from-\d+$", "", st or "start")
+
+
+def graph_cases(ctx, c, terms, refs):
+    """One value graph printed at every node in every state (see childGraph)."""
+    spec, cyc = c["spec"], c["cyc"]
+    small = {"kind": "graph", "spec": spec}
+    if c["status"] != "ok":
+        ctx.finding("cycle:%s:%s:%s" % (stage_class(c["last_stage"]), cyc, c["status"]),
+                    "str/repr of a %s value graph (%s) does not terminate with a finite result: %s in stage %s" % (cyc, spec["name"], c["status"], c["last_stage"]), small)
+        return
+    if c.get("errors"):
+        ctx.finding("cycle-error:%s" % cyc, "str/repr failed on value graph %s: %s" % (spec["name"], c["errors"][:2]), small)
+        return
+    by_node = {}
+    for o in c["outs"]:
+        by_node.setdefault(o["node"], []).append(o)
+    heap, hval = graph_heap(spec)
+    for node, outs in sorted(by_node.items()):
+        base = outs[0]
+        for o in outs:
+            if o["repr"] != base["repr"] or o["str"] != base["repr"]:
+                ctx.finding("cycle-state-dependent:%s:%s" % (stage_class(o["stage"]), cyc),
+                            "value graph %s node %d prints %s / %s in stage %s but %s when unfrozen" % (
+                                spec["name"], node, bytes.fromhex(o["repr"])[:120], bytes.fromhex(o["str"])[:120], o["stage"], bytes.fromhex(base["repr"])[:120]), small)
+                break
+        terms.append("(CCyc %s %s [107; 48; 49; 50; 51; 52; 53; 54; 55; 56; 57] %s)" % (heap, hval(node), hb(base["repr"])))
+        refs.append({"kind": "graph", "spec": spec, "node": node, "repr": base["repr"]})
 
 
 def run_values(ctx, hx, dist):
     q = ctx.quick()
     n = 1500 if q else 40000
-    ncoq = 180 if q else 2500
-    cases = ctx.jsonl([hx, "values", "-seed", str(ctx.seed), "-n", str(n), "-coq", str(ncoq)], timeout=800)
+    ncoq = 130 if q else 2500
+    cases = ctx.jsonl([hx, "values", "-seed", str(ctx.seed), "-n", str(n), "-coq", str(ncoq), "-graphs", "20" if q else "400"], timeout=800)
     summ = [c for c in cases if c["kind"] == "summary"][0]
     dist.update(summ["dist"])
-    res = process_values(ctx, cases, 200 if q else 500)
+    res = process_values(ctx, cases, 150 if q else 500)
     res["evaluations"] += n
     return res
 
@@ -249,16 +318,10 @@ def process_values(ctx, cases, shard):
         if k == "value_fail":
             finding(ctx, "repr-roundtrip:" + c["class"], "Eval(repr(v)) is not v for a %s: %s (repr = %s)" % (c["class"], c["what"], bytes.fromhex(c["repr"])[:200]), c)
         elif k == "cycle":
-            if c["what"] == "list-struct-list":
-                if c["status"] != "ok":
-                    ctx.finding("cycle-through-struct:" + c["status"], "repr/str of a list containing a struct whose field is that list does not terminate (%s): Struct.String restarts writeValue with an empty cycle path" % c["status"], c)
-                continue
-            if c["status"] != "ok":
-                ctx.finding("cycle:%s:%s" % (c["what"], c["status"]), "str/repr of the cyclic value %s does not terminate with a finite result (%s)" % (c["what"], c["status"]), c)
-                continue
-            h, root = CYCLES[c["what"]]
-            terms.append("(CCyc %s %s [97; 107; 108; 120] %s)" % (h, root, hb(c["out"].encode().hex())))
-            refs.append(c)
+            if c["what"] == "list-struct-list" and c["status"] != "ok":
+                ctx.finding("cycle-through-struct:" + c["status"], "repr/str of a list containing a struct whose field is that list does not terminate (%s): Struct.String restarts writeValue with an empty cycle path" % c["status"], c)
+        elif k == "graph":
+            graph_cases(ctx, c, terms, refs)
         elif k == "value":
             pr, sh = set(), {}
             vt = value_term(c["v"], pr, sh)
@@ -275,11 +338,18 @@ def process_values(ctx, cases, shard):
     bad_model, bad_spec = par_mismatches(ctx, "c15_values", header, ut, ["model_ok", "spec_ok"], shard=shard) if ut else ([], [])
     for i in bad_spec:
         c = ur[i]
+        if c.get("kind") == "graph":
+            continue
         finding(ctx, "repr-not-denoting:" + c["v"]["t"], "repr printed %s, which does not denote the value (type/bits exact) according to the reader" % bytes.fromhex(c["repr"])[:200], c)
     only_model = [i for i in bad_model if i not in set(bad_spec)]
     if only_model:
         c = ur[only_model[0]]
-        ctx.broken("correspondence:C15.Value", "printer model and implementation differ on %d case(s), e.g. %s" % (len(only_model), str(c)[:600]))
+        if c.get("kind") == "graph":
+            # the heap model (write_heap, proved to terminate and to mark exactly the cycles) is the
+            # specification of cyclic printing: a different text for a cyclic/shared graph is a finding
+            finding(ctx, "cycle-text:%s" % c["spec"]["name"].split("-")[0], "value graph %s node %d prints %s, the cycle-path model prints something else" % (c["spec"]["name"], c["node"], bytes.fromhex(c["repr"])[:160]), c)
+        else:
+            ctx.broken("correspondence:C15.Value", "printer model and implementation differ on %d case(s), e.g. %s" % (len(only_model), str(c)[:600]))
     return {"evaluations": len(ut), "distinct": len(ut), "samples": ur[:2] + ur[-2:], "model_mismatches": len(bad_model), "spec_mismatches": len(bad_spec)}
 
 
@@ -294,12 +364,12 @@ def run_strings(ctx, hx, cov_dist):
     ctx.notes.append("is_print hypothesis checked on %d code points (%s), %d printable, 0 violations" % (ip["checked"], "all" if ip["full"] else "all < 0x3000 + sample", ip["printable"]))
 
     # --- strings: quote / scan / unquote / utf8
-    n = 300 if q else 6000
+    n = 260 if q else 6000
     cases = ctx.jsonl([hx, "strings", "-seed", str(ctx.seed), "-n", str(n)] + ([] if q else ["-sweep"]), timeout=800)
     summ = [c for c in cases if c["kind"] == "summary"][0]
     cov_dist.update(summ["dist"])
     evaluations += summ["direct_round_trips"] + 4 * summ["swept_code_points"]
-    res = process_strings(ctx, cases, 600 if q else 1500)
+    res = process_strings(ctx, cases, 700 if q else 1500)
     res["evaluations"] += evaluations
     res["isprint"] = ip
     return res
